@@ -41,14 +41,14 @@ ExampleStep == \E input \in ExampleInputs :
                  LET x == ExampleRun(parent, input) IN
                    /\ parent' = x.parent
                    /\ clone' = x.clone
-                   /\ last' = [outcome |-> x.outcome, kind |-> x.kind, changed |-> Obs(x.clone) # Obs(parent)]
+                   /\ last' = [outcome |-> x.outcome, kind |-> x.kind, changed |-> x.clone # parent]
                    /\ UNCHANGED n
 
 Next == GrowStep \/ ExampleStep
 Spec == Init /\ [][Next]_vars
 
 \* (steps with n unchanged are exactly the Example steps)
-CloneIndependent == [][ n' = n => (parent' = parent /\ Obs(parent') = Obs(parent)) ]_vars
+CloneIndependent == [][ n' = n => parent' = parent ]_vars        \* hence Obs(parent') = Obs(parent)
 ExampleTotal == last.outcome \in {"none", "ok", "resolver", "nameres", "type", "runtime"}
 SameAsSubmit == [][ n' = n => \E input \in ExampleInputs : clone' = Submit(parent, input).st ]_vars
 \* a failing example leaves even the clone as the parent was (C06 on the clone)
